@@ -12,6 +12,13 @@ func replayMore(rp *ev.Replay) *ev.Failure {
 	switch rp.Test {
 	case "ccase":
 		return replayCCase(rp.Case)
+	case "zcase":
+		var c ZCase
+		if err := json.Unmarshal(rp.Case, &c); err != nil {
+			return ev.Failf(rp.Property+"/replay", "bad case: %v", err)
+		}
+		f, _ := oracleC10Lazy(&c)
+		return f
 	case "pcase":
 		var c PCase
 		if err := json.Unmarshal(rp.Case, &c); err != nil {
